@@ -306,16 +306,31 @@ theorem hm2m_isolation (cmds : List (M2MCmd α)) (st st' : HState α) (c : M2MCm
   obtain ⟨h1, h2⟩ := (hm2mCmd_sep (hm2m_separation cmds st h) hc).2.2 j s ht hj
   exact ⟨h1, h2, abs_congr _ _ _ h2⟩
 
-/-- every mutator through either side, the constructors, and `update(other)` from ANOTHER instance do by value
-    exactly what the by-value model does (same dicts, same order, same return value / KeyError).
-    FULL statement wanted: for every command.  Proved with the decidable hypothesis `c.NoSelfUpdate`
-    (`c` is not `x.update(x)` / `x.update(x.inv)`): there loop 2 reads what loop 1 has just written, the by-value
-    model reads the old value; the two agree as sets of pairs (compared on every run by the correspondence: flag `V1`)
-    but not as lists -/
-theorem hm2m_refines_partial (cmds : List (M2MCmd α)) (st : HState α)
-    (h : hm2mRun HState.empty cmds = some st) (hns : ∀ c ∈ cmds, c.NoSelfUpdate) :
-    m2mRun [] cmds = some st.abs :=
-  hm2mRun_sim cmds HSep.empty hns h
+/-- MAIN (refinement, FULL - round 2 had `hm2m_refines_partial` with the hypothesis `NoSelfUpdate`): for EVERY history,
+    self-updates `x.update(x)` / `x.update(x.inv)` included, the heap-level machine (set objects with identities, every
+    statement followed literally, the other instance's cells read live) shows by value exactly what the by-value
+    machine shows: the same dicts in the same order, register by register (return values / KeyError: `hm2m_refines_cmd`) -/
+theorem hm2m_refines (cmds : List (M2MCmd α)) (st : HState α)
+    (h : hm2mRun HState.empty cmds = some st) : m2mRun [] cmds = some st.abs :=
+  hm2mRun_sim cmds HSep.empty (fun _ hm => by simp [HState.abs, HState.empty] at hm) h
+
+/-- one command, from any state a history can reach: same registers by value afterwards, same return value / KeyError -/
+theorem hm2m_refines_cmd (cmds : List (M2MCmd α)) (st st' : HState α) (c : M2MCmd α) (ret : Ret α)
+    (h : hm2mRun HState.empty cmds = some st) (hc : hm2mCmd st c = some (st', ret)) :
+    m2mCmd st.abs c = some (st'.abs, ret) :=
+  hm2mCmd_sim (hm2mRun_sep cmds HSep.empty h)
+    (hm2mRun_wf cmds HSep.empty (fun _ hm => by simp [HState.abs, HState.empty] at hm) h) hc
+
+/-- what the by-value machine does for a self-update: `x.update(x)` leaves the register as it is, `x.update(x.inv)`
+    (through either side) makes it `selfMerge` - whose content `hm2m_self_update_spec` describes -/
+theorem m2m_self_update_cmd (regs : List (M2M α)) (r : Nat) (s : M2M α) (side : Bool) (hr : regs[r]? = some s) :
+    m2mCmd regs (.updateFrom r side r side) = some (regs, .none) ∧
+    m2mCmd regs (.updateFrom r side r (!side)) = some (regs.set r ((selfMerge (s.side side)).side side), .none) := by
+  have hf : ((!side) = side) = False := by cases side <;> simp
+  constructor
+  · simp only [m2mCmd, hr, M2M.updateFromReg, decide_true, if_true]
+    rw [set_same hr]
+  · simp only [m2mCmd, hr, M2M.updateFromReg, decide_true, if_true, hf, if_false]
 
 /-- MAIN (heap level): after ANY history - self-updates `x.update(x)` / `x.update(x.inv)` included, which are
     handled on their own (`x.update(x)` changes nothing; `x.update(x.inv)` is `selfMerge`) - every instance, read
@@ -358,9 +373,10 @@ example : hm2mRun (HState.empty : HState Nat)
 example : (hm2mRun (HState.empty : HState Nat)
     [.new [(1, 5), (2, 6)], .updateFrom 0 false 0 true, .updateFrom 0 true 0 true, .op 0 true (.remove 5 1)]).map HState.abs
     = some [⟨[(2, [6]), (5, [1]), (6, [2])], [(6, [2]), (1, [5]), (2, [6])]⟩] := by decide
-/-- the hypothesis `NoSelfUpdate` on a history that copies and cross-updates -/
-example : ∀ c ∈ ([.new [(1, 5)], .newFrom 0 true, .updateFrom 1 false 0 true, .op 0 true (.delitem 5)] : List (M2MCmd Nat)),
-    c.NoSelfUpdate := by decide
+/-- the two machines on that history, as `hm2m_refines` says: identical dicts, order included -/
+example : m2mRun ([] : List (M2M Nat))
+    [.new [(1, 5), (2, 6)], .updateFrom 0 false 0 true, .updateFrom 0 true 0 true, .op 0 true (.remove 5 1)]
+    = some [⟨[(2, [6]), (5, [1]), (6, [2])], [(6, [2]), (1, [5]), (2, [6])]⟩] := by decide
 /-- what the invariant excludes, and the heap-level machine can express: an instance 1 that stores instance 0's
     set objects (the defect fixed in 5d85018) - `x0.add(6, 4)` then shows up in instance 1, on one side only -/
 example : (hm2mCmd (⟨[[2], [6]], [⟨[(6, 0)], [(2, 1)]⟩, ⟨[(6, 0)], [(2, 1)]⟩]⟩ : HState Nat) (.op 0 false (.add 6 4))).map
